@@ -76,7 +76,7 @@ def check_omega(ctx, case):
     ctx.check(got == want, "omega-sequence", "get_Omega_sequence()=%r, expected %r" % (got, want), case)
     # kappa == kappa_X(ED, KR)
     raw = case.get("raw", seq)
-    k = util.sp(raw).get_kappa()
+    k = util.spw(raw, case).get_kappa()
     _r, kedge = ref_kappa(ref.pattern(seq))
     eq_kappa(ctx, case, k, util.sp(raw).get_kappa_X(["E", "D"], ["K", "R"]), "kappa=kappaX(ED,KR)", "get_kappa() vs get_kappa_X(ED,KR) for input %r" % raw, kedge)
     if "raw" in case:
@@ -217,9 +217,24 @@ def hyp_case(draw, max_len):
 
 
 def enum_cases(tier, seed):
+    import itertools
     import random
     rnd = random.Random(seed)
     n = 2 if tier == "quick" else 8
+    # every way of splitting the documented unions {E,D,K,R} and {P,E,D,K,R} into two groups (not only acid/base)
+    for union in ("EDKR", "PEDKR"):
+        for r in range(1, len(union)):
+            for g1 in itertools.combinations(union, r):
+                g2 = [x for x in union if x not in g1]
+                for _ in range(n):
+                    seq = "".join(rnd.choice(union * 3 + ref.AA) for _ in range(rnd.randint(8, 30)))
+                    yield {"kind": "groups", "seq": seq, "g1": list(g1), "g2": g2}
+    # delta-maximising arrangements (own delta may exceed the documented delta-max), asked after the permutant was requested
+    from .. import patmax
+    for N in (6, 7, 8):
+        for comp, best in sorted(patmax.table(N).items()):
+            if comp[0] and comp[1]:
+                yield {"kind": "omega", "seq": util.spell(best, rnd), "warm": [["get_deltaMax", [True]]]}
     for a in ref.AA:
         for _ in range(n):
             seq = "".join(rnd.choice(a + ref.AA) for _ in range(rnd.randint(6, 30)))
